@@ -8,6 +8,7 @@ import (
 	"github.com/jsightapi/jsight-schema-core/notations/jschema"
 	"github.com/jsightapi/jsight-schema-core/notations/regex"
 
+	"github.com/jsightapi/jsight-api-core/catalog"
 	"github.com/jsightapi/jsight-api-core/directive"
 	"github.com/jsightapi/jsight-api-core/jerr"
 	"github.com/jsightapi/jsight-api-core/notation"
@@ -63,7 +64,13 @@ func (core *JApiCore) buildUserTypes() *jerr.JApiError {
 			if !d.BodyCoords.IsSet() {
 				return d.KeywordError(jerr.BodyIsEmpty)
 			}
-			s = regex.New(k, d.BodyCoords.Read())
+			rs := regex.New(k, d.BodyCoords.Read())
+			// Before any other type gets a chance to convert this one (which
+			// takes an example of it, see catalog.CheckRegexExample).
+			if err := catalog.CheckRegexExample(rs); err != nil {
+				return jschemaToJAPIError(err, d)
+			}
+			s = rs
 		default:
 			return nil
 		}
